@@ -381,7 +381,7 @@ func runCase(w *tr.Writer, seed uint64, idx int, focus string) {
 	}
 	rec := newRecorder()
 	rec.injects = cfg.inject
-	h := &handler{rec: rec, rnd: tr.NewRand(seed*7919 + uint64(idx)), byC: map[gnet.Conn]*connInfo{}, cfg: cfg, w: w,
+	h := &handler{rec: rec, rnd: tr.NewRand(seed*7919 + uint64(idx)), byC: map[gnet.Conn]*connInfo{}, curBy: map[int64]*connInfo{}, cfg: cfg, w: w,
 		inTraffic: make(chan struct{}, 1), release: make(chan struct{}), udpPeers: map[string]*peer{}}
 	vunix.SetHooks(rec)
 	defer vunix.SetHooks(nil)
